@@ -318,6 +318,9 @@ class Py(object):
         self.f, self.name = f, name
 
 
+NOATTR = object()
+
+
 class ModRef(object):
     def __init__(self, name):
         self.name = name
@@ -516,6 +519,9 @@ class SK(object):
                 g = self.m.lookup(cls, e.attr, 'getters')
                 if g is not None:
                     return self.call(g, [b], {})          # property read
+                cv = self.class_attr(cls, e.attr)
+                if cv is not NOATTR:
+                    return cv
             raise Violation('SK2', 'attribute %s of %s read before it is set' % (e.attr, b._cls), e)
         if isinstance(b, SuperRef):
             fi = self.m.lookup(b.obj._cls, e.attr, 'methods', after=b.after)
@@ -526,8 +532,14 @@ class SK(object):
             return FnRef(fi, bound=b.obj)
         if isinstance(b, tuple) and len(b) == 2 and b[0] == 'class' and e.attr == '__name__':
             return b[1][1]
+        if isinstance(b, tuple) and len(b) == 2 and b[0] == 'class' and isinstance(b[1], tuple):
+            cv = self.class_attr(b[1], e.attr)
+            if cv is not NOATTR:
+                return cv
         if isinstance(b, tuple) and len(b) == 2 and b[0] == 'class' and e.attr == '__new__':
             return Py(lambda sk, node, c, *a, **k: Bag(c[1]) if isinstance(c, tuple) and c and c[0] == 'class' else {}, '__new__')
+        if isinstance(b, Py) and getattr(b, 'name', None) == 'dict' and e.attr == 'fromkeys':
+            return Py(lambda sk, node, keys, val=None: dict.fromkeys(list(self.iterate(keys, node)) if not isinstance(keys, (list, tuple, dict, set, str)) else list(keys), val), 'dict.fromkeys')
         if isinstance(b, dict) and e.attr == '__new__':
             return Py(lambda sk, node, *a, **k: {}, 'dict.__new__')
         if isinstance(b, dict) and e.attr in ('update', 'setdefault', 'copy', 'clear'):
@@ -547,6 +559,17 @@ class SK(object):
         if b is None:
             raise Violation('SK2', 'attribute %s of None' % e.attr, e)
         raise Unsupported('attribute %s on %s' % (e.attr, type(b).__name__))
+
+    def class_attr(self, cls, name):
+        """a class-level attribute (an assignment in a class body), resolved through the MRO; its value is evaluated in the class's module"""
+        for k in self.m.mro(cls):
+            ci = self.m.classes.get(k)
+            if ci is None:
+                continue
+            for st in ci.node.body:
+                if isinstance(st, ast.Assign) and any(isinstance(t, ast.Name) and t.id == name for t in st.targets):
+                    return self.ev(st.value, {'__mod__': k[0]})
+        return NOATTR
 
     def arith(self, op, a, b, node):
         for x in (a, b):
